@@ -208,8 +208,17 @@ PROPS['C19'] = {
 
 
 # ---------------------------------------------------------------- C02
+QUO_CUTS = {'cuts': 'reduce', 'loopcuts': [
+    {'fn': 'Decimal.QuoWithMode', 'phis': ['exp', 'trunc'], 'allocs': ['sig', 'rem', 'oSig'], 'args': ['sig', 'rem', 'exp', 'trunc', 'oSig'], 'hook': 'vlc_quo128'},
+    {'fn': 'Decimal.QuoWithMode', 'phis': ['exp', 'sig64', 'rem64', 'carry'], 'allocs': ['oSig'], 'args': ['sig64', 'rem64', 'carry', 'exp', 'oSig'], 'hook': 'vlc_quo64'}]}
+
+
 def c02_jobs(tier, seed):
-    jobs = [('vh_c02_mul', [], CUT),
+    jobs = [('vh_c02_quo', [0, c], QUO_CUTS) for c in range(10)] + [('vh_c02_quo', [1, c], QUO_CUTS) for c in range(5)]
+    # time-boxed bounded unrolling with the real operands: turns a failing induction step into a replayable witness
+    tb = 150 if tier == 'quick' else 900
+    jobs += [('vh_c02_quo', [p, -2], {'cuts': 'reduce', 'best_effort': True, 'job_budget': tb, 'timeout': 20}) for p in (0, 1)]
+    jobs += [('vh_c02_mul', [], CUT),
             ('vh_c02_default', [], {'cuts': ['MulWithMode', 'QuoWithMode']})]
     jobs += r_jobs([128, 256], tier, seed, sample=4)
     return jobs
@@ -217,12 +226,17 @@ def c02_jobs(tier, seed):
 
 PROPS['C02'] = {
     'jobs': c02_jobs,
-    'must_reach': ['C02:mul', 'C02:mulzero', 'C02:default', 'R:finite', 'R:flush', 'R:overflow'],
-    'bounds': {'quick': 'MulWithMode: both full 128-bit finite patterns, mode symbolic: the exact 226-bit product reaches reduce128/reduce256 with the summed exponent, XOR sign and no sticky; zero products; Mul/Quo == WithMode(DefaultRoundingMode) for every DefaultRoundingMode. Kernel contracts reduce128 (all classes) and reduce256 (classes 0,1,44 + seeded) incl. subnormal, flush and overflow regions (sampled depths).',
-               'thorough': 'same, with every reduce256 class 0..44 and every subnormal depth / overflow excess.'},
-    'outside': 'QuoWithMode digit-generation loops (quotient digits beyond the first division) are NOT covered by this check: their trip count depends on the operands and the one-step induction planned in DESIGN.md §1.5 is not built; Quo special operands are covered under C15.',
-    'assumptions': ['assume-guarantee at the rounding kernel (contract R, precondition P proved at the call sites)'],
+    'must_reach': ['C02:mul', 'C02:mulzero', 'C02:default', 'R:finite', 'R:flush', 'R:overflow', 'C02:quo', 'C02:quo128base', 'C02:quo128step', 'C02:quo64base', 'C02:quo64step'],
+    'bounds': {'quick': 'MulWithMode: both full 128-bit finite patterns, mode symbolic: the exact 226-bit product reaches reduce128/reduce256 with the summed exponent, XOR sign and no sticky; zero products; Mul/Quo == WithMode(DefaultRoundingMode) for every DefaultRoundingMode. QuoWithMode: all finite non-zero operand pairs, mode symbolic, split into the 128-bit path and the 64-bit fast path: every dividend pre-scaling path (real operands) establishes sig*o + rem == D*10^k; one-step induction over both digit loops from an arbitrary invariant state (10 resp. 5 magnitude classes of max(sig, rem), together covering all states; divisor fresh), exit obligations floor/sticky/precondition P; time-boxed (150 s) depth-first unrolling with the real operands. Kernel contracts reduce128 (all classes) and reduce256 (classes 0..5, 44 + seeded) incl. subnormal, flush and overflow regions (sampled depths). Loop bound 600.',
+               'thorough': 'same, with every reduce256 class 0..44 and every subnormal depth / overflow excess; 900 s real-operand unrolling.'},
+    'outside': 'the induction principle itself and the step from the loop invariant to the exact quotient (argued, not solved); the body of uint128.div (used through its mathematical contract, lemma undecided); Quo special operands are covered under C15.',
+    'assumptions': ['assume-guarantee at the rounding kernel (contract R, precondition P proved at the call sites)',
+                    'uint128.div(n, o) == (n div o, n mod o): used as a contract, its lemma is not proved (undecided at 60 s)',
+                    'loop cut: the loop-carried variables at the cut headers are exactly the phi nodes / local arrays named in engine/props.py QUO_CUTS; exp stays within 80 of its initial value (consequence of the induction hypothesis)'],
     'validate_per_harness': 6,
+    'job_budget': {'quick': 1500, 'thorough': 3000},
+    'assumed_contracts': ['uint128).div'],
+    'timeout': {'quick': 120, 'thorough': 300},
 }
 
 
